@@ -410,6 +410,58 @@ def check(model: Model, run: Run) -> None:
                 run.violation(q, 'list searched inside a loop: %s' % norm(c)[:60], f.loc(c), 'the list `%s` is built from the message and searched once per element: a 65535 byte UPDATE costs minutes of reactor time instead of milliseconds (a set or dict lookup is constant time)' % operand.id, ['decode path: ' + ' -> '.join(short(x) for x in cg.path(pred, q))])
     run.check(n8 >= 300, MESSAGE_UNPACK, 'list-search scan over %d decode-reachable functions' % n8, model.func(MESSAGE_UNPACK).loc(), 'scan floor')
 
+    # ------------------------------------------------------------------ R9 table lookups with a key the peer chose
+    run.rule(
+        'C03.R9',
+        'a class-level table indexed with a value derived from the message is looked up under a membership test, an equality '
+        'test against one of its keys, a handler for KeyError, or after the entry was created: a KeyError is not a Notify, and '
+        'the reactor turns it into NOTIFICATION 1/0 for a message the RFCs may allow',
+        floor=10,
+    )
+    n9 = 0
+    for q in sorted(dec):
+        f = model.funcs[q]
+        pm9 = parent_map(f.node)
+        for sub in walk_no_nested(f.node):
+            if not (isinstance(sub, ast.Subscript) and isinstance(sub.ctx, ast.Load) and not isinstance(sub.slice, (ast.Slice, ast.Constant))):
+                continue
+            d = dotted(sub.value) or ''
+            parts = d.split('.')
+            if len(parts) != 2 or parts[0] == 'self':
+                continue
+            ty = model.type_of(f.module, sub.value)
+            if not (ty.startswith('builtins.dict') or ty.startswith('typing.Dict')):
+                continue
+            n9 += 1
+            key = norm(sub.slice)
+            safe_why = None
+            for t_, pol in flat_guards(f.node, sub):
+                nt = norm(t_).replace('(', '').replace(')', '')
+                k2 = key.replace('(', '').replace(')', '')
+                if (('%s in %s' % (k2, d)) in nt and pol) or (('%s not in %s' % (k2, d)) in nt and not pol) or (('%s in %s.keys' % (k2, d)) in nt and pol):
+                    safe_why = 'membership test'
+                if isinstance(t_, ast.Compare) and len(t_.ops) == 1 and isinstance(t_.ops[0], ast.Eq) and pol and norm(t_.left) == key:
+                    safe_why = 'equality with a constant key'
+            p_ = pm9.get(id(sub))
+            while p_ is not None and p_ is not f.node and safe_why is None:
+                if isinstance(p_, ast.Try) and any(set(handler_names(h)) & {'KeyError', 'Exception', '*', 'LookupError'} for h in p_.handlers) and any(sub is x for b in p_.body for x in ast.walk(b)):
+                    safe_why = 'KeyError handled'
+                p_ = pm9.get(id(p_))
+            if safe_why is None:
+                # the entry was created just before: D[k] = ..., D.setdefault(k, ...)
+                created = any((isinstance(n, ast.Assign) and any(isinstance(t, ast.Subscript) and dotted(t.value) == d and norm(t.slice) == key for t in n.targets)) or (isinstance(n, ast.Call) and isinstance(n.func, ast.Attribute) and n.func.attr == 'setdefault' and dotted(n.func.value) == d and n.args and norm(n.args[0]) == key) for n in walk_no_nested(f.node) if getattr(n, 'lineno', 0) <= sub.lineno)
+                if created:
+                    safe_why = 'entry created in this function'
+            if safe_why is None and (short(q), d) in R9_TRIAGED:
+                safe_why = 'triaged: ' + R9_TRIAGED[(short(q), d)]
+            inst = '%s: %s' % (short(q), norm(sub)[:50])
+            if safe_why is not None:
+                run.ok(inst, safe_why)
+            else:
+                run.violation(q, 'unguarded lookup %s' % norm(sub)[:60], f.loc(sub), 'the key comes from the message and nothing shows it is a key of %s: a KeyError escapes the decoder' % d, ['decode path: ' + ' -> '.join(short(x) for x in cg.path(pred, q))])
+    if n9 < 10:
+        run.cannot('only %d class-table lookups found on the decode path' % n9)
+
     # ------------------------------------------------------------------ R4 barriers
     run.rule(
         'C03.R4',
@@ -794,6 +846,13 @@ def _r5_unknown(model: Model, run: Run) -> None:
         'the unknown non-transitive tail must not raise nor add a marker and must continue the walk (found %s)' % (bad or 'no continuation'),
     )
 
+
+
+# class-table lookups whose key is known to be present although no guard shows it (confirmed by reading)
+R9_TRIAGED = {
+    ('Attribute.unpack', 'cls.cache'): 'the per-code cache is created when the attribute class is registered; reached only when caching is on',
+    ('IP.toafi', 'cls._AF_TO_AFI'): 'toaf() returns AF_INET or AF_INET6, the two keys, or raises ValueError',
+}
 
 
 # str parameters that end in a Notify text: every caller passes a literal (confirmed by reading)
